@@ -66,6 +66,15 @@ CHECKS = {
             'handler (and are the original object), and a probe request is answered identically afterwards.',
             'status oracle is hand-written from the statement; BaseExceptions and streaming-body failures are not generated',
             'DESIGN.md §4 C08'),
+    'C09': ('exploration',
+            'Hypothesis-generated error instances / 404s / uncaught exceptions with marker-tagged hostile text; RFC status table, own Accept negotiation, stdlib JSON/XML/HTML parsers as validity oracles',
+            'Every exported error class (raised and returned, default and overridden fields drawn from markup, quotes, template '
+            'and format syntax, control and non-ASCII characters) x Accept headers x default/debug handlers: status must equal a '
+            'hand-written table, the Content-Type must be a format the Accept header permits and the body must parse as that '
+            'format; JSON and XML field values round-trip; an HTML tokenizer must see no tag, attribute, comment or script '
+            'content introduced by the marker text, on basic and debug pages.',
+            'negotiation is asserted only where the statement determines it (ties / parameterised / malformed ranges accept any consistent outcome); trusts html.parser, xml.etree, json',
+            'DESIGN.md §4 C09'),
 }
 
 PENDING_REASON = 'check not built yet in this session (planned, see DESIGN.md §4); not claimed until it runs quietly on the unchanged tree'
